@@ -965,6 +965,11 @@ package hashgraph
 //@ func NewHashgraph(store Store, commitCallback InternalCommitCallback, logger *logrus.Entry) *Hashgraph
 //@   modifies any logrus.Logger.Level
 //@   ensures[memo] ret0 != nil && __fresh(ret0) && ret0.MemoOK() && ret0.Store == store
+//@   ensures[ready] ret0.ConsensusReady()
+
+//@ func (h *Hashgraph) Init(peerSet *peers.PeerSet) error
+//@   requires h != nil && peerSet != nil
+//@   modifies G_pset(h.Store), G_psetOK(h.Store), G_rep(h.Store), G_fault(h.Store)
 
 // ConsensusReady: what every stage of the pipeline needs from the hashgraph object (kept by every stage).
 //@ ghost func (h *Hashgraph) ConsensusReady() bool { return h.MemoOK() && h.PendingRounds != nil && h.PendingRounds.wf() && h.PendingSignatures != nil && h.PendingSignatures.items != nil }
